@@ -16,7 +16,6 @@ import concurrent.futures as cf
 import copy
 import json
 import math
-import os
 import random
 import shutil
 import struct
@@ -222,9 +221,10 @@ class _Logged(Exception):
     pass
 
 
-def _values(prog, number, nums, flip):
-    """Objective values and the report offsets of a trial: a deterministic function of the parameter values
-    (and, for exact programs, the trial number).  flip[k] = True: objective k is negated (C13)."""
+def _values(prog, number, nums):
+    """The objective values f_k of a trial: a deterministic function of the parameter values (and, for exact programs,
+    the trial number, which makes them pairwise distinct).  Negation for a flipped objective (C13) happens at the
+    caller and is exact."""
     vals = []
     for k in range(prog["nobj"]):
         s = 0.0
@@ -242,7 +242,6 @@ def run_scenario(sc, conf, workdir):
     """Returns {"events": [...raw events with python floats...], "id_ne_number": bool}."""
     common.use_repo()
     import optuna
-    from optuna.trial import TrialState  # noqa
 
     prog = sc["prog"]
     flip = conf.get("flip") or [False] * prog["nobj"]
@@ -294,7 +293,7 @@ def run_scenario(sc, conf, workdir):
                     st["names"].append(p["name"])
                     nums.append((p["name"], _num(p, v)))
                 trial.set_user_attr("k", {"n": [1, "a", None], "f": 0.5})
-                vals = _values(prog, trial.number, nums, flip)
+                vals = _values(prog, trial.number, nums)
                 if prog["fail_mod"] and int(math.floor(abs(vals[0]) * 1024.0)) % prog["fail_mod"] == 0:
                     raise ScenarioError("deterministic failure")
                 for step in range(prog["reports"]):
